@@ -81,7 +81,7 @@ def shrink_case(case, still_fails, budget=60):
     return best
 
 
-def run(ctx, out, prop, monitor, cfg=None, corr_label='corr_convert', extra_cases=None, sizes=None, focus=None):
+def run(ctx, out, prop, monitor, cfg=None, corr_label='corr_convert', extra_cases=None, sizes=None, focus=None, twins=False):
     """monitor(case) -> list of (signature, what, replay_extra) for property failures on pane itself."""
     rng = random.Random(ctx['seed'])
     n_types, per_type, depth = (sizes or SIZES)[ctx['tier']]
@@ -98,6 +98,16 @@ def run(ctx, out, prop, monitor, cfg=None, corr_label='corr_convert', extra_case
             pass
     if extra_cases:
         cases += extra_cases(rng)
+    if twins:
+        for term, value in gen.twin_union_cases(rng):
+            try:
+                with warnings.catch_warnings():
+                    warnings.simplefilter('ignore')
+                    b = terms.build(term, rng)
+                    terms.verify(term, b.py)
+                cases.append(convcases.Case(term, b, value, 'twin'))
+            except terms.Unsupported:
+                pass
     cases += convcases.make_cases(rng, n_types, per_type, depth, cfg)
     failing = []
     for c in cases:
